@@ -105,6 +105,9 @@ func genSeq(t *rapid.T, o genOpts) SCase {
 			}
 		case "list":
 			op.Pat = rapid.IntRange(0, len(Patterns)-1).Draw(t, "pat")
+			if rapid.IntRange(0, 2).Draw(t, "second") == 0 {
+				op.Pat2 = 1 + rapid.IntRange(0, len(Patterns)-1).Draw(t, "pat2")
+			}
 		case "advance":
 			op.Min = rapid.SampledFrom([]int{23, 47, 47, 97, 97, 251}).Draw(t, "min")
 			for k, e := range expAt {
@@ -172,7 +175,7 @@ func C03Alphabet() []SOp {
 		SOp{K: "putmany", Keys: []int{0, 1}, Vals: []int{2, 0}, Exps: []int{Exp1h, 0}},
 		SOp{K: "putmany"},
 		SOp{K: "putmany", Keys: []int{0, 0}, Vals: []int{2, 0}, Exps: []int{0, 0}},
-		SOp{K: "list", Pat: 0}, SOp{K: "list", Pat: 2},
+		SOp{K: "list", Pat: 0}, SOp{K: "list", Pat: 2}, SOp{K: "list", Pat: 0, Pat2: 1 + 2},
 	)
 	return a
 }
